@@ -333,6 +333,24 @@ func (s *StoreSim) decodeOnce(p world.API, rd *storeReader, buf []byte, exact bo
 	return res
 }
 
+// differs reports whether two decodes of the same input disagree.
+func differs(rd *storeReader, x, y decodeResult) bool {
+	if (x.err == "") != (y.err == "") {
+		return true
+	}
+	if x.err != "" {
+		return false
+	}
+	if rd.mode == "descriptor" {
+		return x.json != y.json
+	}
+	if !x.val.IsValid() || !y.val.IsValid() {
+		return x.val.IsValid() != y.val.IsValid()
+	}
+	ok, _ := world.Equal(x.val, y.val)
+	return !ok
+}
+
 func violStore(kind, site, msg string, c *StoreCase) *Violation {
 	return &Violation{Prop: "C04", Kind: kind, Task: -1, OpIdx: -1, OpKind: c.Mode, Type: c.Reader, Site: site, Msg: msg}
 }
@@ -420,7 +438,20 @@ func (s *StoreSim) RunCase(c *StoreCase, input, prev []byte, rd *storeReader) (*
 			first = res
 			continue
 		}
-		// reads nothing outside the input: what lies beyond len must not matter
+		// reads nothing outside the input: what lies beyond len must not matter.
+		// A disagreement seen on the long-lived instance is re-examined with a
+		// brand-new instance per presentation, so that state carried over from
+		// the previous decode (C10's business) is not mistaken for an over-read.
+		if differs(rd, res, first) {
+			a := s.decodeOnce(world.NewInstance(c.Cfg), rd, present(input, prev, "exact"), false)
+			b := s.decodeOnce(world.NewInstance(c.Cfg), rd, present(input, prev, how), false)
+			InstallStoreHooks()
+			if !differs(rd, a, b) && a.panicked == "" && b.panicked == "" {
+				s.St.ByFault["history_dependent_result_ignored"]++
+				continue
+			}
+			res, first = b, a
+		}
 		if (res.err == "") != (first.err == "") {
 			return violStore("overread", "", fmt.Sprintf("result depends on bytes beyond the input: with exact capacity error=%q, with spare capacity (%s) error=%q", first.err, how, res.err), c), how
 		}
